@@ -60,8 +60,10 @@ func (g *Graph) Dijkstra(src Vertex) (distTo map[interface{}]int, edgeTo map[int
 
 			// A sum that doesn't fit an int is farther away than any
 			// distance we can report (this also covers U itself being
-			// unreachable, i.e. infinitely far away).
-			if weight > maxInt-u.distance {
+			// unreachable, i.e. infinitely far away). Only a positive
+			// weight can overflow; distances may be negative since callers
+			// use small negative weights as a discount.
+			if weight > 0 && u.distance > maxInt-weight {
 				continue
 			}
 
